@@ -16,9 +16,11 @@ mod obs;
 mod plan;
 mod rng;
 mod runner;
+mod scen_bigram;
 mod scen_build;
 mod scen_dict;
 mod scen_image;
+mod scen_model;
 mod scen_worker;
 mod world;
 
@@ -32,9 +34,13 @@ fn scenario(id: &str) -> Option<Box<dyn Scenario>> {
         "C04" => Some(Box::new(scen_worker::WorkerScenario)),
         "C05" => Some(Box::new(scen_dict::RoundTripScenario)),
         "C06" => Some(Box::new(scen_dict::MappingScenario)),
+        "C07" => Some(Box::new(scen_bigram::BigramScenario)),
         "C08" => Some(Box::new(scen_dict::UserLexScenario)),
         "C09" => Some(Box::new(scen_image::ImageScenario)),
         "C10" => Some(Box::new(scen_build::BuildScenario)),
+        "C14" => Some(Box::new(scen_model::ExportScenario)),
+        "C15" => Some(Box::new(scen_model::ModelRoundTripScenario)),
+        "C16" => Some(Box::new(scen_model::SmallDicScenario)),
         "C13" => Some(Box::new(scen_worker::ReorderScenario)),
         _ => None,
     }
